@@ -71,7 +71,16 @@ def calls(rng, thorough):
         for fn, tot in ((1, 0), (2, 3), (3, 3), (2, 2)):
             out.append(("RQ|0404", "get_schedule_fragment", (CTL, z, fn, tot or None), {}, {"zone_idx": f"{z:02X}", "frag_number": fn}, True))
         out.append((" W|0404", "set_schedule_fragment", (CTL, z, 1, 3, "AB" * rng.randrange(1, 42)), {}, {"zone_idx": f"{z:02X}", "frag_number": 1, "total_frags": 3}, True))
-    out.append(("RQ|0404", "get_schedule_fragment", (CTL, "HW", 1, None), {}, {"zone_idx": "HW", "frag_number": 1}, True))
+    for hw in ("HW", "FA", 0xFA):       # the three documented spellings of the DHW schedule
+        out.append(("RQ|0404", "get_schedule_fragment", (CTL, hw, 1, None), {}, {"zone_idx": "HW", "frag_number": 1}, True))
+        out.append(("RQ|0404", "get_schedule_fragment", (CTL, hw, 2, 3), {}, {"zone_idx": "HW", "frag_number": 2, "total_frags": 3}, True))
+        out.append((" W|0404", "set_schedule_fragment", (CTL, hw, 1, 3, "AB" * 30), {}, {"zone_idx": "HW", "frag_number": 1, "total_frags": 3}, True))
+    for z in ("00", "0B"):              # hex-string spellings of a zone
+        out.append((" W|2349", "set_zone_mode", (CTL, z), {"mode": "follow_schedule"}, {"zone_idx": z}, True))
+    for dhw_idx in (0, 1):
+        out.append(("RQ|10A0", "get_dhw_params", (CTL,), {"dhw_idx": dhw_idx}, {}, True))
+        out.append(("RQ|1F41", "get_dhw_mode", (CTL,), {"dhw_idx": dhw_idx}, {}, True))
+        out.append(("RQ|1260", "get_dhw_temp", (CTL,), {"dhw_idx": dhw_idx}, {}, True))
     for i in list(range(0, 64)) + [64, 100, 255, 256, -1]:
         out.append(("RQ|0418", "get_system_log_entry", (CTL, i), {}, {"log_idx": f"{i:02X}"} if 0 <= i < 64 else None, 0 <= i < 64))
     for i in list(range(0, 256)) + [256, -1]:
